@@ -446,6 +446,21 @@ func c18Check(c *C, k c18Case, viaTemplate bool) bool {
 			return false
 		}
 	}
+	// the panicking twin of ApplyFilter gives the same value (its only difference is how an error is reported)
+	if must, perr := func() (mv *pongo2.Value, perr any) {
+		defer func() { perr = recover() }()
+		return pongo2.MustApplyFilter(k.filter, pongo2.AsValue(k.in), param), nil
+	}(); perr != nil || must == nil || must.String() != v.String() {
+		d := desc()
+		d["route"] = "MustApplyFilter"
+		d["panic"] = fmt.Sprint(perr)
+		if must != nil {
+			d["output"] = q(must.String())
+		}
+		d["applyfilter_output"] = q(v.String())
+		c.Fail("routes-disagree", d)
+		return false
+	}
 	if viaTemplate && k.param != nil && !k.seq {
 		// a literal input with an argument taken from the context: the compiled template is first executed with ANOTHER
 		// argument value, then with the real one
@@ -572,6 +587,43 @@ func c18Run(c *C) {
 		})
 		return
 	}
+	if c.Idx == nw+1 {
+		// case mapping over every code point of the BMP (and a few beyond) as the first character:
+		// capfirst / upper / lower follow the simple (one rune to one rune) Unicode case mappings
+		for cp := rune(1); cp <= 0x1FFFF; cp++ {
+			if cp >= 0xD800 && cp <= 0xDFFF {
+				continue
+			}
+			if cp > 0xFFFF && cp%7 != 0 && !(cp >= 0x10400 && cp <= 0x104FF) && !(cp >= 0x1E900 && cp <= 0x1E95F) {
+				continue
+			}
+			in := string(cp) + "xY"
+			for _, f := range []string{"capfirst", "upper", "lower"} {
+				var want string
+				switch f {
+				case "capfirst":
+					want = string(unicode.ToUpper(cp)) + "xY"
+				case "upper":
+					want = string(unicode.ToUpper(cp)) + "XY"
+				default:
+					want = string(unicode.ToLower(cp)) + "xy"
+				}
+				v, err := pongo2.ApplyFilter(f, pongo2.AsValue(in), nil)
+				c.Eval(1)
+				if err != nil || v.String() != want {
+					got := ""
+					if v != nil {
+						got = v.String()
+					}
+					c.Fail("reference-mismatch", D{"filter": f, "input": q(in), "first_code_point": fmt.Sprintf("U+%04X", cp), "output": q(got), "expected": q(want)})
+					return
+				}
+			}
+		}
+		c.Cover("case_mapping_all_first_code_points")
+		c.Nontrivial("casemap")
+		return
+	}
 	if c.Idx == nw {
 		// widthratio window through the template tag
 		set, _ := newSet(emptySetFiles)
@@ -623,6 +675,9 @@ func c18Run(c *C) {
 	}
 	// random inputs
 	r := c.R
+	if c.Idx < nw+2 {
+		return
+	}
 	for n := 0; n < 50; n++ {
 		s := c18RandText(r)
 		rs := []rune(s)
@@ -712,7 +767,7 @@ func init() {
 	register(&Prop{
 		ID: "C18",
 		Cases: func(tier string) int {
-			return c18Families*16 + 1 + c18Plan(tier)
+			return c18Families*16 + 2 + c18Plan(tier)
 		},
 		Run: c18Run,
 		Rule: "exhaustive integer windows (slice bounds -8..8 and omitted, squared, over strings incl. multi-byte, []int, [N]int array values and []string of length 0..6; widths 0..20 over 23 strings for truncatechars/truncatewords/ljust/rjust/center/wordwrap; get_digit 0..12; " +
